@@ -136,6 +136,11 @@ def run_scenario(ctx, col, case, tag, rng, transport, regime, lat, n, errors_at,
             "noise_at": sorted(noise_at), "drop_at": drop_at,
             "async_error_after": {k: v.decode() for k, v in (async_after or {}).items()}}
     pert = sched.Perturber(sched.printrun_functions(), seed=rng.randrange(1 << 30), p_yield=0.25, p_sleep=0.01)
+    short_timeout = None
+    if LAT[lat][0] >= 0.02 and rng.random() < 0.5:
+        short_timeout = LAT[lat][0] / rng.choice([2, 10])     # shorter than every acknowledgement latency
+        info["set_timeout"] = short_timeout
+        col.count("scenarios_with_timeout_shorter_than_latency")
 
     def body():
         try:
@@ -147,6 +152,9 @@ def run_scenario(ctx, col, case, tag, rng, transport, regime, lat, n, errors_at,
             t0 = time.monotonic()
             while dev.quiet_for() < 0.4 and time.monotonic() - t0 < 10:
                 time.sleep(0.01)
+        if short_timeout is not None:
+            # the public timeout option (connection timeout) must not bound the acknowledgement wait
+            w.set_timeout(short_timeout)
         state["t_first"] = time.monotonic_ns()
         for i, st in enumerate(statements):
             t_call = time.monotonic_ns()
